@@ -1142,6 +1142,15 @@ pub fn run_case(prop: &str, case: &Case, ctx: &mut CaseCtx) -> Result<(), Violat
                 return Err(v("unbond-claim-entry", format!("{at}: Unbond must add exactly one claim of {amount}; claims went {:?} -> {:?}", pre.claims[u], post.claims[u])));
             }
             if let Some((k, add)) = changed.first() {
+                // the claim's own release date is not earlier than the unbonding period after this unbond
+                let too_early = match (k.0, earliest) {
+                    (0, Earliest::Height(h)) => (k.1 as u128) < h,
+                    (1, Earliest::Nanos(t)) => (k.1 as u128) < t,
+                    _ => false,
+                };
+                if too_early {
+                    return Err(v("claim-release-too-early", format!("{at}: the new claim is released at {:?}, before the unbonding period after the unbond is over ({:?})", k, earliest)));
+                }
                 let e = ledger[u].entry(*k).or_insert((Uint256::zero(), earliest));
                 e.0 += *add;
                 e.1 = Earliest::later(e.1, earliest);
